@@ -36,6 +36,8 @@ pub fn threads_job(job: &J) -> J {
         KList::from_slice(&init.iter().map(|n| KValue::from(*n)).collect::<Vec<_>>()).into()
     };
 
+    // how long the round may go without any thread finishing before it is reported as hung (deadlock)
+    let watchdog_s = job.get("watchdog_s").and_then(|v| v.as_u64()).unwrap_or(30);
     let n = scripts.len();
     let barrier = Arc::new(Barrier::new(n));
     let (tx, rx) = mpsc::channel::<(usize, J)>();
@@ -78,7 +80,7 @@ pub fn threads_job(job: &J) -> J {
     let mut results: Vec<J> = vec![J::Null; n];
     let mut got = 0;
     while got < n {
-        match rx.recv_timeout(Duration::from_secs(30)) {
+        match rx.recv_timeout(Duration::from_secs(watchdog_s)) {
             Ok((t, o)) => {
                 results[t] = o;
                 got += 1;
